@@ -22,4 +22,23 @@ def run(ctx):
     ER.clause_select_bytes(R, F)
     ER.clause_decode_before_mutate(R, F, write)
     ER.clause_drain_pairing(R, F)
+    # the protocol checks compare against waiting_tx_count: every transaction that occupies an index in the block (whatever its
+    # outcome - success, revert, halted, refused by revm's validation) advances that count by exactly one, on every path of the
+    # update closure; otherwise the next call with a reused index, or a commit / reorg in the middle of the block, is accepted
+    from guards import lin
+    from terms import rvalue_origin
+    from tablerules import must_pass_on_success
+    upd = []
+    for g in ER.operation_bodies(F, "add_tx_to_block"):
+        hits = [(bi, rvalue_origin(g, st["rv"], 0, frozenset(), 30)) for bi, b in enumerate(g.blocks) for st in b["stmts"]
+                if st["k"] == "assign" and st["lhs"].get("p") and st["lhs"]["p"][-1] == ".waiting_tx_count" and len(st["lhs"]["p"]) == 2]
+        if hits:
+            upd.append((g, hits))
+    R.floor("tx_count_update_bodies", len(upd), 1)
+    for g, hits in upd:
+        R.ob(must_pass_on_success(g, [bi for bi, _ in hits]), "DOM-all", g.where(), "DOM-all|counters|.waiting_tx_count",
+             "waiting_tx_count is advanced on some paths only (e.g. only when the execution output is Ok): a transaction that took an index "
+             "is not counted, so the block-protocol checks work from a stale count", sample={"rule": "DOM-all", "closure": g.name[-40:], "field": ".waiting_tx_count"})
+        l = lin(hits[0][1])
+        R.ob(l.k == 1 and len(l.terms) == 1, "WIRE", g.where(), "WIRE|counters|tx-count", "waiting_tx_count is not advanced by exactly one")
     return R
